@@ -1,5 +1,6 @@
 (* C13 — store-rewriting commands are idempotent; a clean check changes nothing. *)
 Require Import Base Extracted Criteria Search AuditGraph DepGraph Resolve Update Commands.
+Require Import Witness.
 Require Import CriteriaProofs UpdateProofs UpdateKeep.
 Local Open Scope N_scope.
 
@@ -41,14 +42,33 @@ Proof.
   exact (required_entries_exemptions _ _ _ _ _ _ _ Hm Hr _ _ _ Hg Hc).
 Qed.
 
-(* `prune` twice IS NOT a no-op on the unchanged tree (known finding F-C13-prune,
-   see DESIGN.md §6): after the first prune the imported entries are no longer
-   fresh, beat a local non-importable audit the first run had to use, and the
-   second run deletes it.  The statement "prune (reload (prune s)) = prune s" is
-   therefore not a theorem of the faithful model; the correspondence run replays
-   the witness on the implementation on every check. *)
+(* IDEMPOTENCE IS REFUTED in the faithful model, for the pruning update and for regenerate exemptions
+   (known findings F-C13-prune / F-C13-regenerate; both witnesses are replayed on the implementation
+   by the correspondence run on every check):
+
+   prune: the first run keeps the local non-importable audit it needs and imports the peer's audit; in
+   the written store that import is no longer fresh, now beats the non-importable audit, and the second
+   run deletes the local audit although nothing else changed. *)
+Theorem C13_refuted_prune_is_idempotent :
+  exists inp s, has_errors (resolve inp s) = false /\
+    cmd_prune false false false inp (cmd_prune false false false inp s) <> cmd_prune false false false inp s.
+Proof.
+  exists p_graph, p_store. split; [vm_compute; reflexivity|]. intros E.
+  apply (f_equal (fun s => map (fun '(n, ps) => length (ps_local ps)) (st_pkgs s))) in E. vm_compute in E. discriminate E.
+Qed.
+
+(* regenerate exemptions: the second run narrows an exemption the first run wrote *)
+Theorem C13_refuted_regenerate_exemptions_is_idempotent :
+  exists inp s,
+    cmd_regenerate_exemptions inp (cmd_regenerate_exemptions inp s) <> cmd_regenerate_exemptions inp s.
+Proof.
+  exists r_graph, r_store. intros E.
+  apply (f_equal (fun s => map (fun '(n, ps) => map x_crit (ps_exemptions ps)) (st_pkgs s))) in E. vm_compute in E. discriminate E.
+Qed.
 
 Print Assumptions C13_check_update_leaves_settled_store.
 Print Assumptions C13_locked_check_writes_the_store_it_read.
 Print Assumptions C13_written_lists_are_canonical.
 Print Assumptions C13_check_keeps_exemption_meaning.
+Print Assumptions C13_refuted_prune_is_idempotent.
+Print Assumptions C13_refuted_regenerate_exemptions_is_idempotent.
